@@ -280,10 +280,13 @@ func runC08(ctx *core.Ctx, idx int) *core.Result {
 // (still a small input: < 1 KiB). The elision search may have to try every choice of runs; it must not take
 // time exponential in the number of elisions. Through the CLI, under RLIMIT_CPU.
 func c08Backtracking(ctx *core.Ctx, res *core.Result, r *rand.Rand) {
-	k := 6 + r.Intn(8)  // elisions
+	k := 6 + r.Intn(8)   // elisions
 	n := 30 + r.Intn(50) // elements
 	stmts := r.Intn(3) == 0
-	elemKind := r.Intn(4) // 0 literal element, 1 distinct single-use metavariables, 2 mixture, 3 one metavariable used twice among literals
+	// 0 literal element, 1 distinct single-use metavariables, 2 mixture, 3 one metavariable used twice among literals,
+	// 4 every section is a pair 'xi, xi' of its own metavariable (a state that failed does not depend on what the
+	// sections in front of it were bound to)
+	elemKind := r.Intn(5)
 	var meta, pat, tgt []string
 	for i := 0; i < k; i++ {
 		e := "a"
@@ -296,6 +299,14 @@ func c08Backtracking(ctx *core.Ctx, res *core.Result, r *rand.Rand) {
 		}
 		if stmts {
 			e = "use(" + e + ")"
+		}
+		if elemKind == 4 {
+			v := fmt.Sprintf("x%d", i)
+			meta = append(meta, fmt.Sprintf("var %s expression", v))
+			e = v + ", " + v
+			if stmts {
+				e = "use(" + v + ")\n use(" + v + ")"
+			}
 		}
 		pat = append(pat, "...", e)
 	}
